@@ -58,10 +58,11 @@ type C07Monitor struct {
 	s3idx      int
 	s3list     []string
 	govTouched bool
+	holding    map[string]uint64 // queryid|metaId of rounds that hold an accepted report and have not been aggregated yet -> height of the last report
 }
 
 func NewC07Monitor(st *Stats) *C07Monitor {
-	return &C07Monitor{st: st, opened: map[string]bool{}, aggregated: map[string]bool{}}
+	return &C07Monitor{st: st, opened: map[string]bool{}, aggregated: map[string]bool{}, holding: map[string]uint64{}}
 }
 func (m *C07Monitor) Name() string { return "c07" }
 
@@ -179,6 +180,7 @@ func (m *C07Monitor) AfterTx(c *Chain, ctx sdk.Context, tx sdk.Tx, ok bool) {
 					return false, nil
 				}
 				inRound++
+				m.holding[fmt.Sprintf("%x|%d", qid, k.K3())] = h
 				q, err := c.App.OracleKeeper.Query.Get(ctx, collections.Join([]byte(qid), k.K3()))
 				if err != nil || !q.HasRevealedReports {
 					c.Violate("C07", "c07", "accepted-report-stored-under-a-round-that-does-not-exist-or-is-not-marked", map[string]interface{}{"reporter": x.Creator, "meta_id": k.K3(), "round_found": err == nil, "expiry": rel, "deposit": deposit})
@@ -261,6 +263,20 @@ func (m *C07Monitor) EndBlockExit(c *Chain, ctx sdk.Context, err error) {
 			c.Violate("C07", "c07", "aggregate-for-round-that-was-not-expiring", map[string]interface{}{"round": k, "height": h})
 		}
 	}
+	// "each round aggregates exactly once": a round that took in an accepted report is either still there, waiting for
+	// its window to close, or it has been aggregated - it never just disappears (whoever removed it, a transaction
+	// or an end blocker)
+	for k, at := range m.holding {
+		if m.aggregated[k] {
+			delete(m.holding, k)
+			continue
+		}
+		m.st.Count("c07.round-with-reports-still-there.evals")
+		if _, still := all4[k]; !still {
+			c.Violate("C07", "c07", "round-holding-reports-disappeared-without-being-aggregated", map[string]interface{}{"round": k, "last_report_height": at, "height": h})
+			delete(m.holding, k)
+		}
+	}
 	// a tipped round without reports keeps its tip
 	for k, q := range m.s3all {
 		if q.Amount.IsPositive() && !q.HasRevealedReports {
@@ -311,11 +327,12 @@ type aggRec struct {
 
 type C08Monitor struct {
 	BaseMonitor
-	st        *Stats
-	hist      map[string][]aggRec // per query id, chronological
-	allowFlag map[string]bool     // qid|reporter|microheight allowed to be flagged in this block
-	snapSeen  map[string]bool
-	blocks    int
+	st           *Stats
+	hist         map[string][]aggRec // per query id, chronological
+	allowFlag    map[string]bool     // qid|reporter|microheight allowed to be flagged in this block
+	snapSeen     map[string]bool
+	blocks       int
+	fundedBefore map[string]bool // reports with a fully paid dispute before the transaction being executed
 }
 
 func NewC08Monitor(st *Stats) *C08Monitor {
@@ -325,9 +342,89 @@ func (m *C08Monitor) Name() string { return "c08" }
 
 func (m *C08Monitor) BeforeBlock(c *Chain, ctx sdk.Context) { m.allowFlag = map[string]bool{} }
 
+// fundedEvidence: the reports about which a dispute exists whose whole fee has been paid.
+func fundedEvidence(c *Chain, ctx sdk.Context) map[string]bool {
+	out := map[string]bool{}
+	_ = c.App.DisputeKeeper.Disputes.Walk(ctx, nil, func(_ uint64, d disputetypes.Dispute) (bool, error) {
+		if d.SlashAmount.IsPositive() && d.FeeTotal.GTE(d.SlashAmount) {
+			e := d.InitialEvidence
+			out[fmt.Sprintf("%x|%s|%d", e.QueryId, e.Reporter, e.BlockNumber)] = true
+		}
+		return false, nil
+	})
+	return out
+}
+
+func (m *C08Monitor) BeforeTx(c *Chain, ctx sdk.Context, tx sdk.Tx) {
+	m.fundedBefore = nil
+	for _, msg := range tx.GetMsgs() {
+		switch msg.(type) {
+		case *disputetypes.MsgProposeDispute, *disputetypes.MsgAddFeeToDispute:
+			m.fundedBefore = fundedEvidence(c, ctx)
+		}
+	}
+}
+
+// mustBeFlagged: "an aggregate becomes flagged when the report that determined it is disputed" - every stored aggregate
+// of the report's query whose determining report is this one (same reporter, same block) carries the flag now.
+func (m *C08Monitor) mustBeFlagged(c *Chain, ctx sdk.Context, r oracletypes.MicroReport, why string) {
+	_ = c.App.OracleKeeper.Aggregates.Walk(ctx, collections.NewPrefixedPairRange[[]byte, uint64](r.QueryId), func(k collections.Pair[[]byte, uint64], a oracletypes.Aggregate) (bool, error) {
+		if a.MicroHeight != r.BlockNumber || int(a.AggregateReportIndex) >= len(a.Reporters) || a.Reporters[a.AggregateReportIndex].Reporter != r.Reporter {
+			return false, nil
+		}
+		m.st.Count("c08.disputed-report-flags-its-aggregate.evals")
+		others := 0
+		if it, err := c.App.OracleKeeper.Aggregates.Indexes.MicroHeight.MatchExact(ctx, a.MicroHeight); err == nil {
+			for ; it.Valid(); it.Next() {
+				others++
+			}
+			it.Close()
+		}
+		m.st.Bucket("c08|disputed-determining-report|%s|aggregates-with-that-micro-height=%d", why, minInt(others, 3))
+		if !a.Flagged {
+			c.Violate("C08", "c08", "aggregate-not-flagged-although-its-determining-report-is-disputed", map[string]interface{}{"query_id": fmt.Sprintf("%x", r.QueryId), "ts": k.K2(), "reporter": r.Reporter, "how": why, "aggregates_with_that_micro_height": others})
+		}
+		return false, nil
+	})
+}
+
 func (m *C08Monitor) AfterTx(c *Chain, ctx sdk.Context, tx sdk.Tx, ok bool) {
 	if !ok {
 		return
+	}
+	if m.fundedBefore != nil {
+		after := fundedEvidence(c, ctx)
+		for _, msg := range tx.GetMsgs() {
+			var e oracletypes.MicroReport
+			switch x := msg.(type) {
+			case *disputetypes.MsgProposeDispute:
+				if x.Report == nil {
+					continue
+				}
+				e = *x.Report
+			case *disputetypes.MsgAddFeeToDispute:
+				d, err := c.App.DisputeKeeper.Disputes.Get(ctx, x.DisputeId)
+				if err != nil {
+					continue
+				}
+				e = d.InitialEvidence
+			default:
+				continue
+			}
+			key := fmt.Sprintf("%x|%s|%d", e.QueryId, e.Reporter, e.BlockNumber)
+			if after[key] && !m.fundedBefore[key] {
+				m.mustBeFlagged(c, ctx, e, "dispute-funded")
+			}
+		}
+	}
+	for _, msg := range tx.GetMsgs() {
+		if x, is := msg.(*disputetypes.MsgAddEvidence); is {
+			for _, r := range x.Reports {
+				if r != nil {
+					m.mustBeFlagged(c, ctx, *r, "evidence-added")
+				}
+			}
+		}
 	}
 	allow := func(r oracletypes.MicroReport) {
 		m.allowFlag[fmt.Sprintf("%x|%s|%d", r.QueryId, r.Reporter, r.BlockNumber)] = true
